@@ -234,6 +234,7 @@ pub fn run(tier: Tier) -> i32 {
         }
     }
     join_condition_part(&mut run);
+    over_clause_part(&mut run, &cases);
     run.states = cases.len() as u64;
     run.transitions = st.points;
     run.set("bounds", json!({"partition": ["none","a"], "sort": ["none","b","-b","{a,-b}"], "frames": frames().iter().map(|f| format!("{f:?}")).collect::<Vec<_>>(),
@@ -316,6 +317,87 @@ fn join_condition_part(run: &mut Run) {
                     }
                 }
             }
+        }
+    }
+}
+
+
+/// the window specifications of a statement: the text of every `OVER (…)`, quote characters removed, in order
+fn over_clauses(sql: &str) -> Vec<String> {
+    let mut out = vec![];
+    let b = sql.as_bytes();
+    let mut i = 0;
+    while let Some(k) = sql[i..].find("OVER (") {
+        let start = i + k + 6;
+        let mut depth = 1;
+        let mut j = start;
+        while j < b.len() && depth > 0 {
+            match b[j] {
+                b'(' => depth += 1,
+                b')' => depth -= 1,
+                _ => {}
+            }
+            j += 1;
+        }
+        let inner: String = sql[start..j.saturating_sub(1)].chars().filter(|c| !matches!(c, '"' | '`' | '[' | ']')).collect();
+        let mut spec = inner.split_whitespace().collect::<Vec<_>>().join(" ");
+        // sql.snowflake gives every window without an order the constant order `ORDER BY 1` (it demands an ORDER BY
+        // for ROW_NUMBER): all rows are peers under it, the segment is the same as without an order
+        if let Some(rest) = spec.strip_prefix("ORDER BY 1") {
+            if rest.is_empty() || rest.starts_with(" ROWS") || rest.starts_with(" RANGE") {
+                spec = rest.trim_start().to_string();
+            }
+        } else if let Some(k) = spec.find(" ORDER BY 1") {
+            let rest = &spec[k + 11..];
+            if rest.is_empty() || rest.starts_with(" ROWS") || rest.starts_with(" RANGE") {
+                spec = format!("{}{}", &spec[..k], rest);
+            }
+        }
+        out.push(spec);
+        i = j;
+    }
+    out
+}
+
+/// Dialects that cannot be executed here: for every window program that compiles, the window specifications
+/// (partition, order, frame of every OVER clause) of each dialect's statement must be those of the statement
+/// for sql.sqlite, which the main exploration executes and compares with the reference evaluation — a dialect's
+/// own rendering of a function must not lose or change the segment the function sees.
+fn over_clause_part(run: &mut Run, cases: &[(Program, Vec<usize>)]) {
+    use crate::relcheck::{all_dialects, dname, opts};
+    use prqlc::sql::Dialect;
+    let texts: Vec<String> = cases.iter().map(|(p, _)| pr_program(p)).collect();
+    let outs: Vec<Vec<(String, String, String, String)>> = par_map(&texts, || (), |_, src| {
+        let compile = |d: Dialect| match crate::iso::guard(|| prqlc::compile(src, &opts(d))) {
+            Ok(Ok(sql)) => Some(sql),
+            _ => None,
+        };
+        let Some(base) = compile(Dialect::SQLite) else { return vec![] };
+        let want = over_clauses(&base);
+        let mut bad = vec![];
+        for d in all_dialects() {
+            if matches!(d, Dialect::SQLite) {
+                continue;
+            }
+            let Some(sql) = compile(d) else { continue };
+            let got = over_clauses(&sql);
+            if got != want {
+                bad.push((dname(d), sql, format!("{got:?}"), format!("{want:?}")));
+            }
+        }
+        bad
+    });
+    for (src, bad) in texts.iter().zip(outs) {
+        run.count("over_clauses:programs", 1);
+        run.validated += 11;
+        for (d, sql, got, want) in bad {
+            // which function's clause differs: the text before the first differing OVER
+            let f = FNS.iter().map(|f| f.name()).find(|n| src.contains(&format!("{n} ")) || src.contains(&format!("{n}}}"))).unwrap_or("?");
+            run.violate(
+                Some(format!("window-specification-differs-between-dialects:{d}:{f}")),
+                format!("[{d}] {} → {sql} :: OVER clauses {got}, for sql.sqlite {want}", src.trim().replace('\n', " | ")),
+                json!({"driver":"over-clauses","prql": src, "dialect": d, "sql": sql, "got": got, "want": want}),
+            );
         }
     }
 }
